@@ -3,7 +3,7 @@
 use crate::checks::*;
 use crate::exec::*;
 use crate::genr::{rand_server_publish_props, rand_string, rand_topic};
-use crate::refcodec::{self as rc, Class, Framing, Prop, SPacket};
+use crate::refcodec::{self as rc, CPacket, Class, Framing, Prop, SPacket};
 use crate::rng::Rng;
 use crate::runner::*;
 use crate::steps::*;
@@ -526,6 +526,9 @@ fn run_pre(stream: &[u8], seed: u64, chunk: Chunk) -> (RunLog, Shared) {
         Step::Connect(ConnectSpec { policy: IoPolicy { read: chunk, ..IoPolicy::default() }, faults: vec![], connack: ConnackSpec::Raw(stream.to_vec()), broker: BrokerPolicy::default(), cancel_at: None }),
         poll0(),
         poll0(),
+        // a later connection shows whether a refused CONNACK left anything behind
+        Step::DropConn,
+        Step::Connect(ConnectSpec::default()),
     ];
     run_script(&cfg, steps, seed)
 }
@@ -533,6 +536,15 @@ fn run_pre(stream: &[u8], seed: u64, chunk: Chunk) -> (RunLog, Shared) {
 /// Oracle for a byte string that arrives instead of / as the CONNACK.
 fn judge_pre(t: &Trace<'_>, stream: &[u8], out: &mut CaseOut) {
     let op = &t.log.ops[0];
+    // never partially acted upon: after a refused handshake the next CONNECT is the configured one
+    if !matches!(op.outcome, Outcome::Ok(_)) {
+        if let Some(CPacket::Connect { client_id, clean_start, keepalive, .. }) = t.w.conns.get(1).and_then(|c| c.out.packets.first()).map(|p| &p.pkt) {
+            out.count("connects_after_refused_handshake", 1);
+            if *client_id != t.log.cfg.client_id || !*clean_start || *keepalive != t.log.cfg.keepalive {
+                out.violations.push(viol("C08", "C08/refused-connack-partially-acted-upon", format!("the handshake answered with {:02x?} failed with {:?}, but the next CONNECT carries client id {:?} (configured {:?}), clean start {}, keep-alive {}", &stream[..stream.len().min(24)], op.outcome, client_id, t.log.cfg.client_id, clean_start, keepalive)));
+            }
+        }
+    }
     let (frames, tail, bad) = split_frames(stream);
     let first = frames.first();
     match first {
@@ -638,7 +650,7 @@ impl Check for C08 {
         if tier == Tier::Quick { 500 } else { 5000 }
     }
     fn required_counters(&self) -> Vec<&'static str> {
-        vec!["mustaccept_frames", "mustreject_frames", "bad_headers", "publishes_delivered_verbatim", "acks_matching_inflight", "connacks_accepted_verbatim", "exhaustive_inputs", "exact_fit_mustaccept_frames"]
+        vec!["mustaccept_frames", "mustreject_frames", "bad_headers", "publishes_delivered_verbatim", "acks_matching_inflight", "connacks_accepted_verbatim", "exhaustive_inputs", "exact_fit_mustaccept_frames", "connects_after_refused_handshake"]
     }
     fn exhaustive(&self) -> bool {
         true
